@@ -15,8 +15,8 @@ class P(vlib.Prop):
     harnesses = [
         vlib.Harness("fanout", "internal/fanoutconsumer", ".", {"zz_verif_c06_test.go": "C06/fanout_test.go"},
                      "^TestVerifC06(Logs|Metrics|Traces|Profiles)$", "fanoutconsumer"),
-        #vlib.Harness("graph", "service", "./internal/graph/", {"zz_verif_c06_test.go": "C06/graph_test.go"},
-                     #"^TestVerifC06Graph$", "graph"),
+        vlib.Harness("graph", "service", "./internal/graph/", {"zz_verif_c06_test.go": "C06/graph_test.go"},
+                     "^TestVerifC06Graph$", "graph"),
     ]
     rule = ("fanout (one test function per signal file: logs, metrics, traces, profiles): EVERY capability vector of "
             "length 0..5 (quick) / 0..7 (thorough) x {mutable, read-only input}, plus random vectors of length 6..12; "
